@@ -71,7 +71,7 @@ PROPS["C02"] = {
             "request switching conditions x API-call script (canonical, or mutated by repeating / skipping / swapping calls and extra body "
             "writes, <=16 calls); oracle = history invariants I1-I5 plus the reference evaluator for canonical scripts; non-trivial = a "
             "disruptive rule fired and (the script is anomalous or the rule was not the first to fire); distinct = distinct case encodings",
-    "essential": {"all": ["anomalous-script", "canonical-script", "engine:DetectionOnly", "engine:Off", "disruptive-fired:deny",
+    "essential": {"all": ["anomalous-script", "canonical-script", "limit-reject-configured", "interrupted-by-body-limit", "engine:DetectionOnly", "engine:Off", "disruptive-fired:deny",
                           "disruptive-fired:drop", "disruptive-fired:redirect", "block-inherits-default", "ctl-ruleEngine-switch",
                           "phase5-after-interruption", "detectiononly+reject-configured"]},
     "assumptions": COMMON_ASSUME + [
